@@ -9,7 +9,11 @@ partial def parseStmt (j : Json) : Option Stmt := do
   | .arr #[.str "append", .str v, .str val] => pure (.append v.toList val.toList)
   | .arr #[.str "unset", .str v] => pure (.unset v.toList)
   | .arr #[.str "func", .str n] => pure (.func n.toList)
-  | .arr #[.str "export", .str p] => pure (.export p.toList)
+  | .arr #[.str "export", .arr ps] => do
+    let l ← ps.toList.mapM fun p => match p with
+      | .str x => some x.toList
+      | _ => none
+    pure (.export l)
   | .arr #[.str "inherit", .arr ecls] => do
     let es ← ecls.toList.mapM fun e => match e with
       | .arr #[.str n, .arr body] => do
